@@ -1774,7 +1774,15 @@ fn gen_c18(r: &mut Rng, seed: u64) -> Scenario {
     let vendor = *r.pick(&["GenuineIntel", "AuthenticAMD", "HygonGenuine", "Short", "MuchLongerThanTwelve"]);
     let mut text = String::new();
     let order = r.below(3);
-    for c in 0..nproc {
+    // some processors offline: they are missing from the list, the others keep their ids
+    let mut offline: Vec<u64> = Vec::new();
+    if nproc >= 4 && r.chance(1, 4) {
+        for _ in 0..r.range(1, 3) {
+            offline.push(*r.pick(&[1u64, nproc / 2, nproc - 2, nproc - 1]));
+        }
+        tags.push("cpus-offline".into());
+    }
+    for c in (0..nproc).filter(|c| !offline.contains(c)) {
         let mut lines = vec![
             format!("processor\t: {}", c),
             format!("vendor_id\t: {}", vendor),
@@ -2116,6 +2124,31 @@ fn gen_c08(r: &mut Rng, seed: u64) -> Scenario {
             }
             push_tags(&mut tags, &["gap-after-non-exec"]);
             break;
+        }
+    }
+    // two libraries loaded from memory files of one name (`memfd_create("plugin")` twice, each opened
+    // through /proc/self/fd): both show as "/memfd:plugin (deleted)", the loader puts them back to back
+    if r.chance(1, 8) {
+        let s1 = crate::gen::lib_spec(r, false, 60);
+        let s2 = crate::gen::lib_spec(r, false, 61);
+        let (i1, i2) = (crate::elfgen::build(&s1), crate::elfgen::build(&s2));
+        let base1 = LIB_BASE + 0x7a00_0000;
+        let base2 = base1 + i1.mapped_len;
+        if !b.world.regions.iter().any(|g| g.start < base2 + i2.mapped_len + 0x1000 && base1 - 0x1000 < g.end()) {
+            let name = "/memfd:plugin";
+            for (img, base, ino) in [(&i1, base1, 10791u64), (&i2, base2, 10790u64)] {
+                let mut mem = img.file.clone();
+                if let Some(o) = img.dt_strtab_val_off {
+                    let vaddr = base + img.dynstr_vaddr;
+                    mem[o as usize..o as usize + 8].copy_from_slice(&vaddr.to_le_bytes());
+                }
+                crate::gen::elf_regions(name, base, img, ino, &mem, &mut b.world.regions);
+            }
+            for g in b.world.regions.iter_mut().filter(|g| g.inode == 10791 || g.inode == 10790) {
+                g.deleted = true;
+            }
+            b.world.regions.sort_by_key(|g| g.start);
+            push_tags(&mut tags, &["same-name-different-files-adjacent"]);
         }
     }
     if r.chance(1, 4) {
